@@ -431,13 +431,13 @@ class Builder(object):
         if fileName:
             self.fileName = fileName
         if mode:
-            self.mode.extend[mode]
+            self.mode.extend(mode)
         if metas:
-            self.metas.extend[metas]
+            self.metas.extend(metas)
         if preloads:
-            self.preloads.extend[preloads]
+            self.preloads.extend(preloads)
         if behaviors:
-            self.behaviors.extend[behaviors]
+            self.behaviors.extend(behaviors)
 
         if self.behaviors: #import behavior package/module
             for behavior in self.behaviors:
